@@ -5,7 +5,10 @@
 (b) `node.transfer_bytes` of every node of generated programs (raw / optimized / lowered /
     materialized expression) vs the property, and — per class — vs the closed-form Gallina
     models (Rechunk, P2PRechunk, SliceSlicesIntegers, PartialReduce, Blockwise, the ArrayExpr
-    default, alias nodes);
+    default, alias nodes; coq/theories/Transfer2.v: OverlapInternal, Stack, CumReduction,
+    CumReductionBlelloch, Shuffle incl. _new_chunks, SlidingWindowReduction and
+    MovingWindowReduction incl. _block_plan and the supports_native_* guards), on the generated
+    programs and on a directed stream (`direct_nodes2`);
 (c) `moved_fraction` vs the model `Unify.moved_fraction` (exact rational vs float) and vs the
     property (range, identical layouts, pure splits)."""
 from __future__ import annotations
@@ -24,7 +27,7 @@ from c13 import compositions, rand_chunks
 from c17 import refines, related_layouts
 import progs
 
-HEADER = "From DA Require Import PyBase Slicing Unify Transfer.\nOpen Scope Z_scope.\n"
+HEADER = "From DA Require Import PyBase Slicing Unify Transfer Transfer2.\nOpen Scope Z_scope.\n"
 
 TOL = 1 << 36          # relative tolerance 2^-36 for the two float quotients (see chk.assumptions)
 EXACT = 1 << 53
@@ -385,6 +388,167 @@ def direct_nodes(rng, n, da):
             yield d, nodes
 
 
+def window_layouts(rng, tier):
+    """(chunks along the sliding axis, window): every layout of n <= 6 (7 thorough) with every window 1..n+1, then irregular
+    layouts, size-1 blocks, many blocks, windows next to the chunk sizes / the axis length"""
+    top = 7 if tier == "thorough" else 6
+    for n in range(1, top + 1):
+        for ch in compositions(n):
+            for w in range(1, n + 2):
+                yield ch, w
+    for _ in range(6000 if tier == "thorough" else 500):
+        r = rng.random()
+        if r < 0.25:
+            ch = (1,) * rng.randint(2, 40)
+        elif r < 0.5:
+            ch = tuple(rng.choice([1, 1, 2, 3]) for _ in range(rng.randint(2, 60)))
+        elif r < 0.75:
+            ch = tuple(rng.randint(1, 9) for _ in range(rng.randint(1, 12)))
+        else:
+            c = rng.randint(2, 7)
+            ch = (c,) * rng.randint(1, 10) + ((rng.randint(1, c),) if rng.random() < 0.6 else ())
+        n = sum(ch)
+        near = [1, 2, n - 1, n, n + 1, max(ch), max(ch) + 1, max(ch) - 1, min(ch), min(ch) + 1, 2 * max(ch), ch[0], ch[0] + 1, ch[-1], ch[-1] + 1]
+        w = rng.choice(near) if rng.random() < 0.6 else rng.randint(1, n + 1)
+        yield ch, max(1, w)
+
+
+def _move_sum(a, window, min_count=None, axis=-1):     # stand-in for bottleneck.move_sum: only its name / module are inspected
+    return np.asarray(a, dtype="f8")
+
+
+_move_sum.__name__ = "move_sum"
+_move_sum.__module__ = "bottleneck"
+
+
+def direct_nodes2(rng, tier, da):
+    """directed nodes of the classes modelled in Transfer2.v: (description, [nodes])"""
+    from dask_array._overlap import OverlapInternal
+    from dask_array._shuffle import Shuffle
+    from dask_array.reductions._sliding_window import MovingWindowReduction, SlidingWindowReduction
+
+    def other_axes():
+        k = rng.choice([0, 0, 1, 1, 2])
+        return [tuple(progs.rand_chunks_for(rng, rng.choice([1, 2, 3, 5]))) for _ in range(k)]
+
+    def array_with(axis_chunks):
+        """an array whose axis `ax` has the given chunks, with 0-2 other axes"""
+        others = other_axes()
+        ax = rng.randint(0, len(others))
+        chunks = tuple(others[:ax] + [tuple(axis_chunks)] + others[ax:])
+        dt = rng.choice(["f8", "f4", "i8", "i2", "u1"])
+        x = da.zeros(tuple(sum(c) for c in chunks), chunks=chunks, dtype=dt)
+        return x, ax, chunks, dt
+
+    # sliding / moving windows, built directly (every window 1..n+1) — the constructors' guards
+    # supports_native_* are compared with the model as part of the case
+    for ch, w in window_layouts(rng, tier):
+        x, ax, chunks, dt = array_with(ch)
+        d = f"x = da.zeros({x.shape}, chunks={chunks}, dtype='{dt}'); "
+        yield (d + f"SlidingWindowReduction(x.expr, {w}, {ax}, {x.ndim}, False, 'sum', x.dtype)",
+               [SlidingWindowReduction(x.expr, w, ax, x.ndim, rng.random() < 0.3, "sum", x.dtype)])
+        yield (d + f"MovingWindowReduction(x.expr, {w}, None, {ax}, 'nansum', np.dtype('f8'))",
+               [MovingWindowReduction(x.expr, w, None, ax, "nansum", np.dtype("f8"))])
+    # the public path: sliding_window_view(...).sum(-1), optimized (SlidingWindowReduction when supports_native_sliding_window)
+    for _ in range(1500 if tier == "thorough" else 120):
+        ch = tuple(rng.choice([1, 1, 2, 3, 4]) for _ in range(rng.randint(2, 12)))
+        w = rng.randint(2, max(2, min(sum(ch), max(ch) + 3)))
+        x, ax, chunks, dt = array_with(ch)
+        if w > sum(ch):
+            continue
+        d = f"x = da.zeros({x.shape}, chunks={chunks}, dtype='{dt}'); da.sliding_window_view(x, {w}, axis={ax}).sum(axis=-1)"
+        try:
+            z = da.sliding_window_view(x, w, axis=ax).sum(axis=-1)
+            yield d, list(z.expr.optimize().walk())
+        except Exception as e:  # noqa: BLE001
+            yield d + " raised " + type(e).__name__, []
+    # the public path of the trailing window (xarray's rolling): map_overlap(bottleneck.move_sum, depth=(window-1, 0), boundary='none'),
+    # optimized (MovingWindowReduction when supports_native_moving_window; `bottleneck` is not installed: a stand-in with its name)
+    for _ in range(1500 if tier == "thorough" else 120):
+        ch = tuple(rng.choice([1, 1, 2, 3, 4]) for _ in range(rng.randint(2, 12)))
+        w = rng.randint(max(ch) + 1, max(ch) + 4)
+        x, ax, chunks, _dt = array_with(ch)
+        if w > sum(ch):
+            continue
+        x = x.astype("f8")
+        d = (f"x = da.zeros({x.shape}, chunks={chunks}, dtype='f8'); da.map_overlap(bottleneck.move_sum, x, depth={{{ax}: ({w - 1}, 0)}}, "
+             f"boundary='none', window={w}, axis={ax}, dtype='f8')")
+        try:
+            z = da.map_overlap(_move_sum, x, depth={ax: (w - 1, 0)}, boundary="none", window=w, axis=ax, dtype="f8")
+            yield d, list(z.expr.optimize().walk())
+        except Exception as e:  # noqa: BLE001
+            yield d + " raised " + type(e).__name__, []
+    # cumulative scans: both methods, irregular chunks, size-1 blocks, many blocks, empty axes
+    for _ in range(4000 if tier == "thorough" else 300):
+        r = rng.random()
+        if r < 0.1:
+            ch = (0,)
+        elif r < 0.3:
+            ch = (1,) * rng.randint(1, 50)
+        elif r < 0.4:
+            ch = (rng.randint(1, 9),)
+        else:
+            ch = tuple(rng.randint(1, 7) for _ in range(rng.randint(1, 14)))
+        x, ax, chunks, dt = array_with(ch)
+        method = rng.choice(["sequential", "blelloch"])
+        f = rng.choice(["cumsum", "cumprod"])
+        d = f"x = da.zeros({x.shape}, chunks={chunks}, dtype='{dt}'); da.{f}(x, axis={ax}, method='{method}')"
+        try:
+            z = getattr(da, f)(x, axis=ax, method=method)
+            yield d, [n for n in z.expr.walk() if type(n).__name__.startswith("CumReduction")]
+        except Exception as e:  # noqa: BLE001
+            yield d + " raised " + type(e).__name__, []
+    # halo exchange: integer / (before, after) depths, zero depths, single-block axes (depth need not fit the chunks for the estimate)
+    for _ in range(4000 if tier == "thorough" else 300):
+        rank = rng.choice([1, 2, 2, 3])
+        chunks = tuple(tuple(rng.randint(1, 6) for _ in range(rng.choice([1, 1, 2, 3, 5, 9]))) for _ in range(rank))
+        axes = {}
+        for ax in range(rank):
+            r = rng.random()
+            if r < 0.25:
+                continue
+            if r < 0.6:
+                axes[ax] = rng.choice([0, 1, 1, 2, 3])
+            else:
+                axes[ax] = (rng.choice([0, 1, 2]), rng.choice([0, 1, 2]))
+        dt = rng.choice(["f8", "i4", "u1"])
+        d = f"OverlapInternal(da.zeros({tuple(sum(c) for c in chunks)}, chunks={chunks}, dtype='{dt}').expr, {axes})"
+        x = da.zeros(tuple(sum(c) for c in chunks), chunks=chunks, dtype=dt)
+        yield d, [OverlapInternal(x.expr, axes)]
+    # shuffles: permutations, repeated indices, groups above / at / below the chunk-size limit, groups inside one block
+    for _ in range(4000 if tier == "thorough" else 300):
+        ch = tuple(rng.randint(1, 6) for _ in range(rng.randint(1, 8)))
+        n = sum(ch)
+        x, ax, chunks, dt = array_with(ch)
+        r = rng.random()
+        if r < 0.3:
+            flat = rng.sample(range(n), n)
+        elif r < 0.6:
+            flat = [rng.randrange(n) for _ in range(rng.randint(1, 2 * n))]
+        elif r < 0.8:
+            flat = sorted(rng.randrange(n) for _ in range(rng.randint(1, n + 2)))
+        else:
+            flat = list(range(n))
+        indexer, k = [], 0
+        while k < len(flat):
+            m = rng.choice([1, 1, 2, 3, max(ch), max(ch) + 1, 2 * max(ch) + 1])
+            indexer.append(flat[k:k + m])
+            k += m
+        d = f"Shuffle(da.zeros({x.shape}, chunks={chunks}, dtype='{dt}').expr, {indexer}, {ax}, 'shuffle')"
+        yield d, [Shuffle(x.expr, indexer, ax, "shuffle")]
+    # stacks of several arrays (the same chunks, possibly the same array twice)
+    for _ in range(1000 if tier == "thorough" else 100):
+        x, ax, chunks, dt = array_with(tuple(rng.randint(1, 4) for _ in range(rng.randint(1, 4))))
+        k = rng.randint(1, 5)
+        arrs = [x if rng.random() < 0.3 else x + j for j in range(k)]
+        axis = rng.randint(0, x.ndim)
+        d = f"x = da.zeros({x.shape}, chunks={chunks}, dtype='{dt}'); da.stack([...{k} arrays...], axis={axis})"
+        try:
+            yield d, [da.stack(arrs, axis=axis).expr]
+        except Exception as e:  # noqa: BLE001
+            yield d + " raised " + type(e).__name__, []
+
+
 class _Holder:
     def __init__(self, expr):
         self.expr = expr
@@ -460,6 +624,47 @@ FAMS = {
                 "  (0 <? d) && (0 <? hd) && close n d (fst lo) (snd lo) && close hn hd (fst hi) (snd hi)." % TOL),
 }
 
+PAIR = "Definition eqp (p e : Z * Z) : bool := (fst p =? fst e) && (snd p =? snd e).\n"
+CLOSE = "Definition close (n d fn fd : Z) : bool := Z.abs (n * fd - fn * d) * %d <=? Z.abs (n * fd).\n" % TOL
+PLAN4_EQB = ("Definition row4_eqb (a b : Z * Z * Z * Z) : bool := let '(a1, a2, a3, a4) := a in let '(b1, b2, b3, b4) := b in\n"
+             "  (a1 =? b1) && (a2 =? b2) && (a3 =? b3) && (a4 =? b4).\n")
+PLAN5_EQB = ("Definition oband_eqb (a b : option (Z * Z)) : bool := match a, b with\n"
+             "  | Some (g, h), Some (g', h') => (g =? g') && (h =? h') | None, None => true | _, _ => false end.\n"
+             "Definition row5_eqb (a b : Z * Z * Z * option (Z * Z) * Z) : bool := let '(a1, a2, a3, a4, a5) := a in let '(b1, b2, b3, b4, b5) := b in\n"
+             "  (a1 =? b1) && (a2 =? b2) && (a3 =? b3) && oband_eqb a4 b4 && (a5 =? b5).\n")
+FAMS.update({
+    # OverlapInternal: chunks, per-axis (before, after), itemsize, impl (lo, hi)
+    "overlap": ("list (list Z) * list (Z * Z) * Z * (Z * Z)",
+                PAIR + "Definition chk (c : list (list Z) * list (Z * Z) * Z * (Z * Z)) : bool := let '(ch, dp, i, e) := c in\n"
+                "  eqp (overlap_transfer ch dp i) e."),
+    "stack": ("list Z * (Z * Z)",
+              PAIR + "Definition chk (c : list Z * (Z * Z)) : bool := let '(nb, e) := c in eqp (stack_transfer nb) e."),
+    # CumReduction: chunks, axis, itemsize, impl lo, impl hi as a fraction
+    "cum": ("list (list Z) * nat * Z * Z * (Z * Z)",
+            CLOSE + "Definition chk (c : list (list Z) * nat * Z * Z * (Z * Z)) : bool := let '(ch, ax, i, lo, hi) := c in\n"
+            "  match cum_transfer ch ax i with Some (l, (n, d)) => (l =? lo) && (0 <? d) && close n d (fst hi) (snd hi) | None => false end."),
+    "blelloch": ("list (list Z) * nat * Z * (Z * Z)",
+                 PAIR + "Definition chk (c : list (list Z) * nat * Z * (Z * Z)) : bool := let '(ch, ax, i, e) := c in\n"
+                 "  eqp (blelloch_transfer ch ax i) e."),
+    # Shuffle._new_chunks: limit, indexer, impl
+    "shuffle_chunks": ("Z * list (list Z) * list (list Z)",
+                       "Definition chk (c : Z * list (list Z) * list (list Z)) : bool := let '(lim, ix, e) := c in\n"
+                       "  match shuffle_new_chunks lim ix with Some r => zlist2_eqb r e | None => false end."),
+    # Shuffle.transfer_bytes: chunks, axis, itemsize, _new_chunks, impl
+    "shuffle": ("list (list Z) * nat * Z * list (list Z) * (Z * Z)",
+                PAIR + "Definition chk (c : list (list Z) * nat * Z * list (list Z) * (Z * Z)) : bool := let '(ch, ax, i, nc, e) := c in\n"
+                "  eqp (shuffle_transfer ch ax i nc) e."),
+    # SlidingWindowReduction: chunks, axis, itemsize, window, impl _block_plan, impl supports_native_sliding_window, impl (lo, hi)
+    "sliding": ("list (list Z) * nat * Z * Z * list (Z * Z * Z * Z) * bool * (Z * Z)",
+                PAIR + PLAN4_EQB +
+                "Definition chk (c : list (list Z) * nat * Z * Z * list (Z * Z * Z * Z) * bool * (Z * Z)) : bool := let '(ch, ax, i, w, pl, sup, e) := c in\n"
+                "  list_eqb row4_eqb (sliding_plan (nth ax ch []) w) pl && Bool.eqb (supports_sliding (nth ax ch []) w) sup && eqp (sliding_transfer ch ax i w) e."),
+    "moving": ("list (list Z) * nat * Z * Z * list (Z * Z * Z * option (Z * Z) * Z) * bool * (Z * Z)",
+               PAIR + PLAN5_EQB +
+               "Definition chk (c : list (list Z) * nat * Z * Z * list (Z * Z * Z * option (Z * Z) * Z) * bool * (Z * Z)) : bool := let '(ch, ax, i, w, pl, sup, e) := c in\n"
+               "  list_eqb row5_eqb (moving_plan (nth ax ch []) w) pl && Bool.eqb (supports_moving (nth ax ch []) w) sup && eqp (moving_transfer ch ax i w) e."),
+})
+
 ALIAS_CLASSES = ("RootAlias", "ChunksFreeze", "ChunksOverride", "Concatenate")
 
 
@@ -529,6 +734,94 @@ def node_model_case(node, tb, nc, sid):
         nc.add("blockwise", ctuple(clist([sid(i) for i in node.out_ind]), clist(node.numblocks), "[" + "; ".join(args) + "]",
                                    f"({n}, {d})", cz(ihi)), desc)
         return "blockwise"
+
+    from dask_array._overlap import OverlapInternal
+    from dask_array._shuffle import Shuffle
+    from dask_array.reductions._cumulative import CumReduction, CumReductionBlelloch
+    from dask_array.reductions._sliding_window import (MovingWindowReduction, SlidingWindowReduction,
+                                                       supports_native_moving_window, supports_native_sliding_window)
+    from dask_array.stacking._stack import Stack
+
+    def ipair():
+        ilo, ihi = as_int(lo), as_int(hi)
+        return None if ilo is None or ihi is None else f"({cz(ilo)}, {cz(ihi)})"
+
+    if owner is OverlapInternal:
+        x = node.array
+        depths = []
+        for ax in range(x.ndim):
+            dpt = node.axes.get(ax, 0)
+            before, after = dpt if isinstance(dpt, tuple) else (dpt, dpt)
+            if not (isinstance(before, (Integral, np.integer)) and isinstance(after, (Integral, np.integer))):
+                return None
+            depths.append(f"({cz(int(before))}, {cz(int(after))})")
+        e = ipair()
+        if e is None:
+            return "not-integer"
+        nc.add("overlap", ctuple(clayout(x.chunks), "[" + "; ".join(depths) + "]", cz(x.dtype.itemsize), e),
+               {**desc, "in_chunks": x.chunks, "axes": repr(node.axes)})
+        return "overlap"
+    if owner is Stack:
+        nbs = [as_int(a.nbytes) for a in node.args if isinstance(a, ArrayExpr)]
+        e = ipair()
+        if e is None or any(v is None for v in nbs):
+            return "not-integer"
+        nc.add("stack", ctuple(clist(nbs), e), {**desc, "arg_nbytes": nbs})
+        return "stack"
+    if owner is CumReduction:
+        x = node.array
+        ilo = as_int(lo)
+        if ilo is None or not math.isfinite(hi):
+            return "not-integer"
+        hn, hd = cfrac(hi)
+        nc.add("cum", ctuple(clayout(x.chunks), f"{int(node.axis)}%nat", cz(x.dtype.itemsize), cz(ilo), f"({hn}, {hd})"),
+               {**desc, "in_chunks": x.chunks, "axis": node.axis})
+        return "cum"
+    if owner is CumReductionBlelloch:
+        x = node.array
+        e = ipair()
+        if e is None:
+            return "not-integer"
+        nc.add("blelloch", ctuple(clayout(x.chunks), f"{int(node.axis)}%nat", cz(x.dtype.itemsize), e),
+               {**desc, "in_chunks": x.chunks, "axis": node.axis})
+        return "blelloch"
+    if owner is Shuffle:
+        x = node.array
+        e = ipair()
+        if e is None:
+            return "not-integer"
+        new_chunks = [[int(i) for i in idx] for idx in node._new_chunks]
+        indexer = [[int(i) for i in idx] for idx in node.indexer]
+        nc.add("shuffle_chunks", ctuple(cz(int(node._chunk_size_limit)), clayout(indexer), clayout(new_chunks)),
+               {**desc, "in_chunks": x.chunks, "indexer": indexer})
+        nc.add("shuffle", ctuple(clayout(x.chunks), f"{int(node.axis)}%nat", cz(x.dtype.itemsize), clayout(new_chunks), e),
+               {**desc, "in_chunks": x.chunks, "axis": node.axis, "new_chunks": new_chunks})
+        return "shuffle"
+    if owner is SlidingWindowReduction:
+        x = node.array
+        e = ipair()
+        if e is None:
+            return "not-integer"
+        ax, w = int(node.sliding_axis), int(node.window)
+        plan = [ctuple(*(cz(int(v)) for v in row)) for row in node._block_plan]
+        sup = bool(supports_native_sliding_window(x.chunks[ax], w))
+        nc.add("sliding", ctuple(clayout(x.chunks), f"{ax}%nat", cz(x.dtype.itemsize), cz(w), "[" + "; ".join(plan) + "]", cbool(sup), e),
+               {**desc, "in_chunks": x.chunks, "axis": ax, "window": w, "supports_native": sup})
+        return "sliding"
+    if owner is MovingWindowReduction:
+        x = node.array
+        e = ipair()
+        if e is None:
+            return "not-integer"
+        ax, w = int(node.sliding_axis), int(node.window)
+        plan = []
+        for start, c, band_start, g, h, middle in node._block_plan:
+            band = "None" if g is None else f"(Some ({cz(int(g))}, {cz(int(h))}))"
+            plan.append(ctuple(cz(int(start)), cz(int(c)), cz(int(band_start)), band, cz(len(middle))))
+        sup = bool(supports_native_moving_window(x.chunks[ax], w))
+        nc.add("moving", ctuple(clayout(x.chunks), f"{ax}%nat", cz(x.dtype.itemsize), cz(w), "[" + "; ".join(plan) + "]", cbool(sup), e),
+               {**desc, "in_chunks": x.chunks, "axis": ax, "window": w, "supports_native": sup})
+        return "moving"
     if owner is ArrayExpr:
         deps = []
         for dep in node.dependencies():
@@ -740,9 +1033,32 @@ def fam_nodes(chk, tier):
             if isinstance(node, da._expr.ArrayExpr):
                 check_node(chk, node, "direct", lambda desc=desc: {"program": desc}, nc, sid, seen_names)
     _materialize._LOWER_CACHE.clear()
-    for fam, items in nc.fam.items():
+    for desc, nodes in direct_nodes2(rng, tier, da):
+        kind = "direct2:" + next((k for k in ("SlidingWindowReduction", "MovingWindowReduction", "sliding_window_view", "move_sum", "cumsum", "cumprod",
+                                              "OverlapInternal", "Shuffle", "stack") if k in desc), "other")
+        if not nodes:
+            chk.count("skipped:" + kind + (":" + desc.rsplit(" ", 1)[-1] if " raised " in desc else ":no-node"))
+            continue
+        chk.count(kind)
+        for node in nodes:
+            if type(node).__name__ in ("SlidingWindowReduction", "MovingWindowReduction"):
+                from dask_array.reductions import _sliding_window as _sw
+                sup = (_sw.supports_native_sliding_window if type(node).__name__ == "SlidingWindowReduction"
+                       else _sw.supports_native_moving_window)(node.array.chunks[node.sliding_axis], node.window)
+                chk.count("window-node:" + type(node).__name__ + (":inside" if sup else ":outside") + "-the-constructor-guard")
+        chk.case(("direct2", desc), nontrivial=True, sample=None)
+        for node in nodes:
+            if isinstance(node, da._expr.ArrayExpr):
+                check_node(chk, node, "direct", lambda desc=desc: {"program": desc}, nc, sid, seen_names)
+    _materialize._LOWER_CACHE.clear()
+    def evaluate(entry):        # the families are independent coqc runs: evaluate them concurrently, report in a fixed order
+        fam, items = entry
         ctype, cdef = FAMS[fam]
-        mism, _ = coq_eval_cases(HEADER, ctype, cdef, [lit for lit, _ in items])
+        return coq_eval_cases(HEADER, ctype, cdef, [lit for lit, _ in items], jobs=4)[0]
+    from concurrent.futures import ThreadPoolExecutor
+    with ThreadPoolExecutor(max_workers=4) as ex:
+        all_mism = list(ex.map(evaluate, list(nc.fam.items())))
+    for (fam, items), mism in zip(list(nc.fam.items()), all_mism):
         for i in mism[:5]:
             chk.tie_break("correspondence:transfer_bytes:" + fam, {"case": items[i][0][:600], **items[i][1]})
         chk.traces_validated += len(items) - len(mism)
@@ -773,7 +1089,11 @@ def run(chk: Check):
                 "layouts incl. zero-size chunks, rank<=4: impl == Gallina model exactly, == interval brute force, 0<=min<=max, same->(0,0); "
                 "(b) transfer_bytes of every node (walk()) of generated programs, raw/optimized/lowered/materialized, incl. unknown-chunk "
                 "(boolean mask) and p2p programs: (min,max) pair, 0<=min<=max, NaN only (and both) with unknown chunks, alias/leaf/same-chunk "
-                "rechunk -> (0,0), and per class == the closed-form Gallina model; (c) moved_fraction == model (exact rational vs float), in "
+                "rechunk -> (0,0), and per class == the closed-form Gallina model (Rechunk, P2PRechunk, SliceSlicesIntegers, PartialReduce, "
+                "Blockwise, default, OverlapInternal, Stack, CumReduction, CumReductionBlelloch, Shuffle + _new_chunks, Sliding/MovingWindowReduction "
+                "+ _block_plan + supports_native_*), also on directed nodes: every layout of n<=6 x every window 1..n+1, size-1 / many / irregular "
+                "blocks, windows next to the chunk sizes, both scan methods, (before, after) depths, permuting / repeating / oversized shuffle "
+                "groups; (c) moved_fraction == model (exact rational vs float), in "
                 "[0,1], 0 for identical layouts and pure splits. non-trivial = distinct layouts / a program with a non-leaf node")
     chk.assumptions = [
         "all modelled inputs are integers, so every float intermediate of _rechunk_stage_transfer / Rechunk / P2PRechunk / "
@@ -784,6 +1104,15 @@ def run(chk: Check):
         "the stages of Rechunk.transfer_bytes come from the real plan_rechunk (an oracle argument of the model `rechunk_transfer`; "
         "the theorem quantifies over all plans whose layouts keep the axis lengths)",
         "NaN early returns (unknown chunk sizes) are outside the Gallina model; the harness checks them against the property only",
+        "Transfer2.v: x.nbytes / n (Shuffle, CumReduction*) is modelled by exact integer division (theorem C27_row_bytes_exact: it is the "
+        "cross-section); the per-block float sums of the window / overlap estimates are integer-valued doubles (checked x == int(x), < 2^53); "
+        "CumReduction's 2*(k-1)/k is kept as an exact rational and compared with relative tolerance 2^-36",
+        "Sliding/MovingWindowReduction nodes are also built DIRECTLY for every window 1..n+1, i.e. outside the constructor guards "
+        "supports_native_sliding_window / supports_native_moving_window (counted as window-node:*:outside-the-constructor-guard); the "
+        "theorems need window >= 1 and non-negative (sliding) / positive (moving) chunks only; window < 1 is outside the model "
+        "(the real code then indexes starts[-1])",
+        "Shuffle: an index >= the axis length makes the real code raise IndexError (axis_chunks[block]); the model reads 0 there; the "
+        "harness only builds in-range indexers (what _validate_indexer / take establish)",
         "theorems need non-negative chunk sizes, equal axis lengths of old and new (what _validate_rechunk enforces) and itemsize >= 0",
     ]
     chk.run_proofs()
